@@ -128,4 +128,24 @@ def replay(spec):
             problems.append("result time axis is %r" % (t,))
         if res.py_get_result().shape != (n, len(species)):
             problems.append("result shape %s" % (res.py_get_result().shape,))
+    if not problems and (spec["stochastic"] or spec["delay"]):
+        # a grid that begins after the system's initial time 0: the decay (rate 1 per molecule, 5 molecules) goes on before the first
+        # requested time, so the first row is the untouched initial condition with probability exp(-7.5) only - not for every seed
+        tp2 = 1.5 + tp
+        untouched = 0
+        for seed in range(1, 21):
+            M2 = Model(species=["B", "A", "C"], reactions=rx, rules=rules, initial_condition_dict={"B": 1, "A": 5, "C": 0})
+            kw2 = dict(kw)
+            if spec["via"] == "interface":
+                kw2["Interface"] = (SafeModelCSimInterface if spec["safe"] else ModelCSimInterface)(M2)
+            else:
+                kw2["Model"] = M2
+            kw2["return_dataframe"] = True
+            py_seed_random(seed)
+            df2 = py_simulate_model(tp2, **kw2)
+            if float(df2["A"].iloc[0]) == 5.0:
+                untouched += 1
+        if untouched == 20:
+            problems.append("grid starting at t=1.5 (initial time 0): the first row is the untouched initial condition for all 20 seeds; what happens before the first "
+                            "requested time is not simulated")
     return {"reproduced": bool(problems), "observed": problems, "expected": "complete, correctly labelled result"}
